@@ -8,6 +8,7 @@
 #include <stdlib.h>
 #include <string.h>
 #include <stdint.h>
+#include <math.h>
 #include "scpi/scpi.h"
 
 static scpi_t ctx;
@@ -24,6 +25,7 @@ static scpi_result_t on_flush(scpi_t * c) { (void) c; return SCPI_RES_OK; }
 /* what the handler decodes */
 static int rd_kind;            /* 0 i32 1 u32 2 i64 3 u64 4 bool 5 text 6 block 7 i32 array(ascii) */
 static uint64_t dec_val; static int dec_ok;
+static double dec_dbl; static float dec_flt;
 static unsigned char dec_bytes[2048]; static size_t dec_len;
 
 static scpi_result_t h_rt(scpi_t * c) {
@@ -35,6 +37,8 @@ static scpi_result_t h_rt(scpi_t * c) {
         case 3: { uint64_t v = 0; dec_ok = SCPI_ParamUInt64(c, &v, TRUE); dec_val = v; break; }
         case 4: { scpi_bool_t v = 0; dec_ok = SCPI_ParamBool(c, &v, TRUE); dec_val = v ? 1 : 0; break; }
         case 5: { size_t l = 0; dec_ok = SCPI_ParamCopyText(c, (char *) dec_bytes, sizeof dec_bytes, &l, TRUE); dec_len = l; break; }
+        case 8: { dec_dbl = 0; dec_ok = SCPI_ParamDouble(c, &dec_dbl, TRUE); break; }
+        case 9: { dec_flt = 0; dec_ok = SCPI_ParamFloat(c, &dec_flt, TRUE); break; }
         case 6: { const char * p = NULL; size_t l = 0; dec_ok = SCPI_ParamArbitraryBlock(c, &p, &l, TRUE); if (dec_ok && l <= sizeof dec_bytes) { memcpy(dec_bytes, p, l); dec_len = l; } break; }
     }
     return dec_ok ? SCPI_RES_OK : SCPI_RES_ERR;
@@ -95,6 +99,36 @@ static void case_block(const unsigned char * s, size_t n) {
     fresh(); SCPI_ResultArbitraryBlock(&ctx, s, n);
     fprintf(out, "{\"t\":\"block\",\"v\":"); pb(s, n); fprintf(out, ",\"out\":"); pb(wbuf, wlen);
     rd_kind = 6; send_back(); fprintf(out, ",\"dec\":"); pb(dec_bytes, dec_len); fprintf(out, "}\n");
+}
+
+/* exact decimal expansion of |v| from glibc (every finite double has at most 767 significant digits) */
+static void expansion(const char * kd, const char * ke, double v) {
+    static char buf[1400], digs[1300];
+    char * p = buf, * e, * q;
+    int ex, nd = 0, k;
+    if (v == 0 || !isfinite(v)) { fprintf(out, ",\"%s\":[0],\"%s\":%d", kd, ke, isfinite(v) ? 0 : 9999); return; }
+    snprintf(buf, sizeof buf, "%.1100e", fabs(v));
+    e = strchr(p, 'e'); ex = atoi(e + 1); *e = 0;
+    digs[nd++] = p[0];
+    for (q = p + 2; *q; q++) digs[nd++] = *q;
+    while (nd > 1 && digs[nd - 1] == '0') nd--;
+    fprintf(out, ",\"%s\":[", kd);
+    for (k = 0; k < nd; k++) { if (k) fputc(',', out); fputc(digs[k], out); }
+    fprintf(out, "],\"%s\":%d", ke, ex);
+}
+static void case_dbl(double v) {
+    fresh(); SCPI_ResultDouble(&ctx, v);
+    fprintf(out, "{\"t\":\"dbl\",\"P\":15,\"neg\":%d", signbit(v) ? 1 : 0); expansion("d", "e", v);
+    fprintf(out, ",\"out\":"); pb(wbuf, wlen);
+    rd_kind = 8; send_back();
+    fprintf(out, ",\"dneg\":%d", signbit(dec_dbl) ? 1 : 0); expansion("dd", "de", dec_dbl); fprintf(out, "}\n");
+}
+static void case_flt(float v) {
+    fresh(); SCPI_ResultFloat(&ctx, v);
+    fprintf(out, "{\"t\":\"flt\",\"P\":6,\"neg\":%d", signbit(v) ? 1 : 0); expansion("d", "e", (double) v);
+    fprintf(out, ",\"out\":"); pb(wbuf, wlen);
+    rd_kind = 9; send_back();
+    fprintf(out, ",\"dneg\":%d", signbit(dec_flt) ? 1 : 0); expansion("dd", "de", (double) dec_flt); fprintf(out, "}\n");
 }
 
 static uint64_t rng;
@@ -161,6 +195,21 @@ int main(int argc, char ** argv) {
         unsigned char s[1200];
         size_t n, k, maxn = thorough ? 1100 : 300;
         for (n = 0; n <= maxn; n++) { for (k = 0; k < n; k++) s[k] = (unsigned char) (rnd() % 6 == 0 ? "\n\r;\"#,"[rnd() % 6] : rnd()); case_block(s, n); }
+    }
+    /* finite doubles / floats: powers of ten, values next to them, random bit patterns over the full exponent range, subnormals */
+    {
+        int e10;
+        long nf = thorough ? 4000 : 250;
+        for (e10 = -307; e10 <= 308; e10 += (thorough ? 3 : 29)) { double p = pow(10.0, e10); case_dbl(p); case_dbl(nextafter(p, 0)); case_dbl(-nextafter(p, INFINITY)); }
+        for (e10 = -37; e10 <= 38; e10 += (thorough ? 1 : 9)) { float p = powf(10.0f, (float) e10); case_flt(p); case_flt(nextafterf(p, 0)); case_flt(-nextafterf(p, INFINITY)); }
+        case_dbl(0.0); case_dbl(5e-324); case_dbl(2.2250738585072014e-308); case_dbl(1.7976931348623e308); case_dbl(1.7976931348623157e308); case_dbl(-1.7976931348623157e308); case_dbl(0.1); case_dbl(123456789012345.6);
+        case_flt(0.0f); case_flt(1e-45f); case_flt(3.40282e38f); case_flt(0.1f); case_flt(999999.5f);
+        for (i = 0; i < nf; i++) {
+            uint64_t b = rnd(); double x; float y; uint32_t b32 = (uint32_t) rnd();
+            memcpy(&x, &b, 8); memcpy(&y, &b32, 4);
+            if (isfinite(x)) case_dbl(x);
+            if (isfinite(y)) case_flt(y);
+        }
     }
     fclose(out);
     return 0;
